@@ -165,7 +165,8 @@ def main(chk):
     outs = par.prove_all(z, jobs, procs=14)
     for job, (st, model, dt) in zip(jobs, outs):
         name, pc, claim, _t, kind, what = job[:6]
-        core = job[6] if len(job) > 6 else True   # with three or more interface points the distance identities (already decided for two points, the translation cancels in differences) are extra
+        core = job[6] if len(job) > 6 else True
+        if kind == 'map' and ' 4 interface' in name: core = False      # four and more interface points: extra instances of the identities decided with two and three points   # with three or more interface points the distance identities (already decided for two points, the translation cancels in differences) are extra
         chk.ob(name, st, core, dt, sample={'obligation': name, 'status': st} if len(chk.samples) < 8 else None)
         if st == 'violated':
             rep = replay(native, kind, name, model)
